@@ -385,7 +385,7 @@ class Stop(BaseException):
 def run_round(spec, out_file, target, save_frequency, incarnation,
               snap_dir=None, stop_after_trials=None, stop_kind='kill',
               torn=None, line_failpoint=None, spec_types=None,
-              via_run_file=False, keep=None):
+              via_run_file=False, keep=None, poll=False):
     """Build a fresh BatchSimulation from the spec on out_file and run it to
     `target` trials.  Returns dict(status, saves, events...)."""
     import contextlib
@@ -445,6 +445,13 @@ def run_round(spec, out_file, target, save_frequency, incarnation,
                                         save_frequency=save_frequency)
             if keep is not None:
                 keep['batch'], keep['key'] = batch, key
+            if poll:
+                # a progress display: live results are read at every update
+                def hook(n_trials, _b=batch):
+                    for sm in _b._simulations:
+                        sm.get_results()
+                batch.on_update = hook
+                batch.update_frequency = 1
             if line_failpoint is not None:
                 fp = LineFailpoint(line_failpoint)
                 fp.start()
